@@ -138,12 +138,20 @@ def texts_for(bg, tier, phase):
     return out
 
 
+# Pairs that reach branches of the mode logic the derived lattice rarely hits; found by the thorough tier's own exploration
+# (not by reading the code) and pinned here so that the quick tier exercises them on every run:
+#  - relaxed mode: recursive pass fails, extended recursion (option A) fails, single relaxed shot (option B) succeeds
+BRANCH_WITNESS = [((177, 235, 241), (141, 109, 0)), ((177, 235, 240), (141, 109, 0))]
+
+
 def pair_lattice(tier, phase):
     """[(text, bg, tag)] over all backgrounds of the tier."""
     out = []
     for bg in backgrounds(tier, phase):
         for t, tag in texts_for(bg, tier, phase):
             out.append((t, bg, tag))
+    for t, bg in BRANCH_WITNESS:
+        out.append((t, bg, "branch_witness"))
     return out
 
 
